@@ -213,6 +213,78 @@ class TaintInterp:
         return V("node", lab | frozenset(extra) | gt)
 
     # ---- calls
+    # ---- iteration-order context: the order taints of the loops being executed (in this or a calling function) and, for
+    #      each, the names whose value survives an iteration.  Conditions go into `pc`; the order of a loop matters only
+    #      where something is accumulated (appended, concatenated, inserted, yielded, kept for the next iteration).
+    def oc(self) -> frozenset:
+        r = set()
+        for ot, _ in getattr(self, "octx", []):
+            r |= ot
+        return frozenset(r)
+
+    def oc_for(self, name: str) -> frozenset:
+        r = set()
+        for ot, carried in getattr(self, "octx", []):
+            if carried is None or name in carried:
+                r |= ot
+        return frozenset(r)
+
+    @staticmethod
+    def _carried_names(fn_node, loop) -> Optional[set]:
+        """names bound in the loop body whose value is used after the loop or before being bound again in the next
+        iteration; None = all (the loop can be left early)"""
+        body = ast.Module(loop.body, [])
+        if any(isinstance(x, (ast.Break, ast.Return)) for x in ast.walk(body)):
+            return None
+        comp_bound = {id(n) for c in ast.walk(body) if isinstance(c, (ast.ListComp, ast.SetComp, ast.DictComp, ast.GeneratorExp))
+                      for g in c.generators for n in ast.walk(g.target) if isinstance(n, ast.Name)}
+        comp_names = {n.id for c in ast.walk(body) if isinstance(c, (ast.ListComp, ast.SetComp, ast.DictComp, ast.GeneratorExp))
+                      for g in c.generators for n in ast.walk(g.target) if isinstance(n, ast.Name)}
+        stored = {x.id: x for x in ast.walk(body) if isinstance(x, ast.Name) and isinstance(x.ctx, ast.Store) and id(x) not in comp_bound}
+        for x in ast.walk(loop.target):
+            if isinstance(x, ast.Name):
+                stored.setdefault(x.id, x)
+        carried = set()
+        end = getattr(loop, "end_lineno", loop.lineno)
+        # places after the loop where a name is bound afresh: comprehension generators (their own scope), targets of later
+        # loops, later plain assignments.  A read that comes after such a binding does not see this loop's value.
+        rebinds: dict[str, list] = {}
+        comp_scopes = []
+        for x in ast.walk(fn_node):
+            if isinstance(x, (ast.ListComp, ast.SetComp, ast.DictComp, ast.GeneratorExp)) and x.lineno > end:
+                names = {n.id for g in x.generators for n in ast.walk(g.target) if isinstance(n, ast.Name)}
+                comp_scopes.append((x, names))
+            if isinstance(x, ast.For) and x.lineno > end:
+                for n in ast.walk(x.target):
+                    if isinstance(n, ast.Name):
+                        rebinds.setdefault(n.id, []).append((x.lineno, x.col_offset))
+            if isinstance(x, (ast.Assign, ast.AnnAssign)) and x.lineno > end and not any(x is y for y in ast.walk(body)):
+                for t in (x.targets if isinstance(x, ast.Assign) else [x.target]):
+                    for n in ast.walk(t):
+                        if isinstance(n, ast.Name) and isinstance(n.ctx, ast.Store):
+                            rebinds.setdefault(n.id, []).append((x.end_lineno, x.end_col_offset))
+        for x in ast.walk(fn_node):
+            if isinstance(x, ast.Name) and isinstance(x.ctx, ast.Load) and x.id in stored:
+                if x.lineno > end:
+                    if any(x.id in names and any(x is y for y in ast.walk(c)) for c, names in comp_scopes):
+                        continue
+                    if any(pos <= (x.lineno, x.col_offset) for pos in rebinds.get(x.id, [])):
+                        continue
+                    carried.add(x.id)           # read after the loop: the value of the last iteration
+        # read in the body before (textually) its first binding there: value of the previous iteration
+        first_store = {}
+        for x in ast.walk(body):
+            if isinstance(x, ast.Name) and isinstance(x.ctx, ast.Store) and id(x) not in comp_bound:
+                pos = (x.lineno, x.col_offset)
+                if x.id not in first_store or pos < first_store[x.id]:
+                    first_store[x.id] = pos
+        for x in ast.walk(body):
+            if isinstance(x, ast.Name) and isinstance(x.ctx, ast.Load) and x.id in first_store and (x.lineno, x.col_offset) < first_store[x.id]:
+                carried.add(x.id)
+            if isinstance(x, ast.AugAssign) and isinstance(x.target, ast.Name):
+                carried.add(x.target.id)
+        return carried
+
     def call_fn(self, fi: FuncInfo, args, kwargs=None, pc=E, closure_env=None):
         if fi.fq in self.stack:
             return self.stack[fi.fq]          # provisional summary for recursion
@@ -220,6 +292,7 @@ class TaintInterp:
             raise AnalysisError(f"taint interpreter: call depth exceeded at {fi.fq}")
         self.stack[fi.fq] = V("seq", E, None, E, "gen") if _is_generator(fi.node) else V("none")
         fr = Frame(fi)
+        fr.octx_base = len(getattr(self, "octx", []))
         self.frames.append(fr)
         try:
             result = None
@@ -239,7 +312,7 @@ class TaintInterp:
                 fr.ret = None
                 fr.yields = None
                 self.block(fn.body, env, fr, pc)
-                result = seq(fr.yields, E, "gen") if (fr.yields is not None or _is_generator(fn)) else (fr.ret if fr.ret is not None else V("none"))
+                result = seq(fr.yields, getattr(fr, "yield_ot", E), "gen") if (fr.yields is not None or _is_generator(fn)) else (fr.ret if fr.ret is not None else V("none"))
                 self.stack[fi.fq] = result
             return result
         finally:
@@ -263,6 +336,8 @@ class TaintInterp:
                 if isinstance(st.value, ast.YieldFrom):
                     v = v.elem if v.elem is not None else V("none")
                 fr.yields = join(fr.yields, add(v, pc))
+                if self.oc():
+                    fr.yield_ot = getattr(fr, "yield_ot", E) | self.oc()
                 return False
             self.ev(st.value, env, pc, fi)
             return False
@@ -279,14 +354,16 @@ class TaintInterp:
             cur = self.ev(st.target, env, pc, fi)
             v = self.ev(st.value, env, pc, fi)
             if cur.kind == "seq" and v.kind == "seq" and isinstance(st.op, ast.Add):
-                self.assign(st.target, seq(join(cur.elem, v.elem), cur.ot | v.ot | pc, ("cat", cur.oid, v.oid)), env, pc, fi)
+                self.assign(st.target, seq(join(cur.elem, v.elem), cur.ot | v.ot | pc | self.oc(), ("cat", cur.oid, v.oid)), env, pc, fi)
             else:
-                # string / number accumulation is order sensitive: inherits the order taint of the enclosing iteration (pc)
-                self.assign(st.target, add(sc(tt(cur) | tt(v)), pc), env, pc, fi)
+                # string / number accumulation is order sensitive: inherits the order taint of the enclosing iterations
+                self.assign(st.target, add(sc(tt(cur) | tt(v)), pc | self.oc()), env, pc, fi)
             return False
         if isinstance(st, ast.Return):
             v = self.ev(st.value, env, pc, fi) if st.value is not None else V("none")
-            fr.ret = join(fr.ret, add(v, pc))
+            # a return from inside a loop hands out what the first suitable iteration produced
+            inner = frozenset().union(*[ot for ot, _ in getattr(self, "octx", [])[getattr(fr, "octx_base", 0):]]) if getattr(self, "octx", None) else E
+            fr.ret = join(fr.ret, add(v, pc | inner))
             return True
         if isinstance(st, ast.If) and not st.orelse and len(st.body) == 1 and isinstance(st.body[0], ast.Assign) and isinstance(st.test, ast.Compare) \
                 and len(st.test.ops) == 1 and isinstance(st.test.ops[0], (ast.Lt, ast.LtE, ast.Gt, ast.GtE)) \
@@ -321,9 +398,36 @@ class TaintInterp:
         if isinstance(st, ast.For):
             it = self.ev(st.iter, env, pc, fi)
             el, ot = self.iterate(it, fi, st.iter)
-            for _ in range(3):
-                self.assign(st.target, el, env, pc, fi)
-                self.block(st.body, env, fr, pc | ot)
+            # lists that start empty and get exactly one element per iteration (an unconditional append at the top level
+            # of the body) are the loop written out of a comprehension: aligned with the iterated sequence
+            one_per_iter = {}
+            for b_ in st.body:
+                if isinstance(b_, ast.Expr) and isinstance(b_.value, ast.Call) and isinstance(b_.value.func, ast.Attribute) and b_.value.func.attr == "append" \
+                        and isinstance(b_.value.func.value, ast.Name) and len(b_.value.args) == 1:
+                    nm_ = b_.value.func.value.id
+                    cur_ = env.get(nm_)
+                    if cur_ is not None and cur_.kind == "seq" and isinstance(cur_.oid, tuple) and cur_.oid and cur_.oid[0] == "lit" and not tt(cur_):
+                        one_per_iter[nm_] = one_per_iter.get(nm_, 0) + 1
+            for nm_ in list(one_per_iter):
+                others = [x for x in ast.walk(ast.Module(st.body, [])) if isinstance(x, ast.Call) and isinstance(x.func, ast.Attribute) and isinstance(x.func.value, ast.Name)
+                          and x.func.value.id == nm_ and x.func.attr in ("append", "extend", "insert", "pop", "remove", "clear", "sort", "reverse")]
+                rebinds = [x for x in ast.walk(ast.Module(st.body, [])) if isinstance(x, ast.Name) and x.id == nm_ and isinstance(x.ctx, ast.Store)]
+                if one_per_iter[nm_] != 1 or len(others) != 1 or rebinds or any(isinstance(x, (ast.Break, ast.Continue, ast.Return)) for x in ast.walk(ast.Module(st.body, []))):
+                    del one_per_iter[nm_]
+            if not hasattr(self, "octx"):
+                self.octx = []
+            self.octx.append((frozenset(ot), self._carried_names(fi.node, st)))
+            try:
+                for _ in range(3):
+                    self.assign(st.target, el, env, pc, fi)
+                    self.block(st.body, env, fr, pc)
+            finally:
+                self.octx.pop()
+            for nm_ in one_per_iter:
+                cur_ = env.get(nm_)
+                if cur_ is not None and cur_.kind == "seq":
+                    oid_ = ("iter", it.oid) if it.kind == "graph" else (("iter", it.x.oid) if it.kind == "nodeview" else it.oid)
+                    env[nm_] = seq(cur_.elem, ot, oid_, cur_.t)
             # for x in d.values(): x.sort()   -- every element of the container is reordered in place
             if isinstance(st.target, ast.Name) and st.body and all(
                     isinstance(b_, ast.Expr) and isinstance(b_.value, ast.Call) and isinstance(b_.value.func, ast.Attribute) and b_.value.func.attr in ("sort", "reverse")
@@ -389,7 +493,8 @@ class TaintInterp:
 
     def assign(self, tg, v, env, pc, fi):
         if isinstance(tg, ast.Name):
-            env[tg.id] = v
+            o_ = self.oc_for(tg.id)
+            env[tg.id] = add(v, o_) if o_ and v.kind in ("scalar", "const", "node") else v
         elif isinstance(tg, (ast.Tuple, ast.List)):
             if v.kind == "tuple" and len(v.items) == len(tg.elts):
                 for e, i in zip(tg.elts, v.items):
@@ -420,19 +525,24 @@ class TaintInterp:
             # keyed by a node id (unique per atom): which value ends up under the key does not depend on the order
             # in which the atoms were visited; only the dictionary's own (insertion) order does
             vpc = E if key.kind == "node" else pc
-            nb = V("map", base.t, join(base.elem, add(v, kt | vpc)), base.ot | pc, base.oid, x=join(base.x, key) if isinstance(base.x, V) else key)
+            nb = V("map", base.t, join(base.elem, add(v, kt | vpc)), base.ot | pc | self.oc(), base.oid, x=join(base.x, key) if isinstance(base.x, V) else key)
             self.rebind(base_expr, nb, env, fi)
         elif base.kind == "nodeattrs":            # m.nodes[a][KEY] = v
             g, keyname = base.x
             if isinstance(key.x, str) and key.kind == "const":
                 keyname = key.x
-            g.x[keyname] = g.x.get(keyname, E) | tt(v) | kt | without(base.t, LABEL) | pc
+            # written under the atom's own id: which atom gets which value does not depend on the order of the visit
+            vpc = E if base.oid == "bynode" else pc
+            t_ = tt(v) | kt | without(base.t, LABEL) | vpc
+            g.x[keyname] = g.x.get(keyname, E) | t_
+            if isinstance(keyname, str):
+                self.sinks.append(Sink(f"node attribute `{keyname}`", fi, node, t_))
         elif base.kind == "attrdict":
             g = base.x
             keyname = key.x if key.kind == "const" else "?"
             g.x[keyname] = g.x.get(keyname, E) | tt(v) | kt | pc
         elif base.kind == "seq":
-            nb = seq(join(base.elem, add(v, kt)), base.ot | pc | kt, ("mut", base.oid))
+            nb = seq(join(base.elem, add(v, kt)), base.ot | pc | kt | self.oc(), ("mut", base.oid))
             self.rebind(base_expr, nb, env, fi)
         elif base.kind in ("scalar", "const", "none", "bound", "func", "node"):
             self.notes.append(f"store into an untracked object ({base.kind}) at {fi.loc(node)}: shared-state writes are R-GLOBAL's / R-EFFECT's concern")
@@ -751,7 +861,7 @@ class TaintInterp:
         k = self.ev(e.slice, env, pc, fi)
         kt = without(tt(k), LABEL)
         if b.kind == "nodeview":            # m.nodes[a]
-            return V("nodeattrs", kt, x=(b.x, None))
+            return V("nodeattrs", kt, x=(b.x, None), oid="bynode" if k.kind == "node" else None)
         if b.kind == "nodeattrs" and b.x[1] is None:
             key = k.x if k.kind == "const" else "?"
             g = b.x[0]
@@ -1352,11 +1462,11 @@ class TaintInterp:
         if k == "seq":
             if name in ("append", "appendleft", "add", "insert"):
                 v = a[-1]
-                self.rebind(f.value, seq(join(recv.elem, v), recv.ot | pc, ("mut", recv.oid)), env, fi)
+                self.rebind(f.value, seq(join(recv.elem, v), recv.ot | pc | self.oc(), ("mut", recv.oid)), env, fi)
                 return V("none")
             if name in ("extend", "extendleft", "update"):
                 el, ot = self.iterate(a[0], fi, e)
-                self.rebind(f.value, seq(join(recv.elem, el), recv.ot | ot | pc, ("mut", recv.oid)), env, fi)
+                self.rebind(f.value, seq(join(recv.elem, el), recv.ot | ot | pc | self.oc(), ("mut", recv.oid)), env, fi)
                 return V("none")
             if name in ("pop", "popleft"):
                 return add(recv.elem, recv.ot)
